@@ -91,6 +91,9 @@ GRAMMARS = {
     # a rule entered again at the same position after backtracking (what memoisation is for): how often its action runs
     "bt": "start = num '+' num $ | num '-' num $ | num $ ;\nnum = /\\d+/ ;\n",
     "bt_b": "start = num '+' num $ | num '-' num $ | num $ ;\nnum = /\\d+/ | /[a-z]+/ ;\n",
+    # a wide choice (a command or keyword list): more alternatives than any cap on list lengths, message widths, columns
+    "wide": "start = cmd $ ;\ncmd = 'add' | 'bind' | 'call' | 'copy' | 'drop' | 'edit' | 'find' | 'grep' | 'help' | 'init' | 'join' | 'kill' | 'list' | 'move' | 'next' | 'open' | 'pull' | 'push' | 'quit' | 'redo' | 'save' | 'show' | 'sync' | 'tag' | 'undo' | 'view' ;\n",
+    "wide_b": "start = cmd $ ;\ncmd = 'add' ~ /\\d+/ | 'bind' | 'call' | 'copy' | 'drop' | 'edit' | 'find' | 'grep' | 'help' | 'init' | 'join' | 'kill' | 'list' | 'move' | 'next' | 'open' | 'pull' | 'push' | 'quit' | 'redo' | 'save' | 'show' | 'sync' | 'tag' | 'undo' | 'view' | name ;\nname = /[A-Z]+/ ;\n",
     # line ends as tokens
     "eol": "@@whitespace :: /[ \\t]+/\nstart = w '\\n' w $ ;\nw = /[a-z]+/ ;\n",
     # many distinct patterns: fills (and overflows) whatever process-wide cache of compiled patterns there is
@@ -146,6 +149,8 @@ INPUTS = {
     "kwparams_b": ["1", "a"],
     "eol": ["a\nb", "a b", "a \n b", "a\n\nb"],
     "bt": ["1-2", "1+2", "1", "1*2", "12-3"],
+    "wide": ["add", "launch", "undo", "view", "", "vie"],
+    "wide_b": ["add 1", "add", "launch", "VIEW", "view", "?"],
     "bt_b": ["1-2", "a-b", "1", "a+1"],
 }
 # texts of the same *shape* (same length, same line lengths) that differ in content or in how they end: whatever is kept
@@ -157,7 +162,7 @@ for _g, _ts in INPUTS.items():
                 if _v not in _ts:
                     _ts.append(_v)
 FAMILIES = [["typed", "typed_b", "typed_c", "params", "typed_d", "typed_tok"], ["kw", "icase", "kw_b", "kw_c"], ["ref", "two", "choice", "ws", "choice_b"], ["lrec", "cut", "over", "named", "const", "lrec_b"],
-            ["nums", "nums_b"], ["cmt_a", "cmt_b", "cmt_c"], ["clo", "clo_b", "opt", "join", "nlist", "clo_n", "opt_n"], ["inh", "nomemo", "kwparams", "kwparams_b", "params"], ["eol", "ws"], ["bt", "bt_b", "lrec", "choice"], ["tok_a", "tok_b", "pat_a", "pat_b"], ["cn_a", "cn_b", "cn_c", "cn_d", "const"]]
+            ["nums", "nums_b"], ["cmt_a", "cmt_b", "cmt_c"], ["clo", "clo_b", "opt", "join", "nlist", "clo_n", "opt_n"], ["inh", "nomemo", "kwparams", "kwparams_b", "params"], ["eol", "ws"], ["wide", "wide_b", "kw"], ["bt", "bt_b", "lrec", "choice"], ["tok_a", "tok_b", "pat_a", "pat_b"], ["cn_a", "cn_b", "cn_c", "cn_d", "const"]]
 FAMILY_RULES = {"bt": ["start", "num", "e", "n", "x"], "cmt_a": ["start", "num"], "clo": ["start", "item", "word", "num"], "inh": ["start", "base", "sub", "a", "num"], "eol": ["start", "w", "word"], "nums": ["start", "value", "integer", "real", "flag"], "tok_a": ["start"], "typed": ["start", "num", "word", "nosuch"], "kw": ["start", "name", "stmt"], "ref": ["start", "num", "word", "first", "second", "x", "nosuch"],
                 "lrec": ["start", "e", "n", "a", "b", "num"]}
 
@@ -1162,7 +1167,7 @@ def gen_call(rng, handles, models_only=False, allow_fault=True, focus=None):
     return op
 
 
-GOOD_INPUT = {"clo_n": "1", "opt_n": "let a = 1", "bt": "1-2", "bt_b": "a-b", "cmt_a": "1 (* c *) 2", "cmt_b": "1 {c} 2", "cmt_c": "1 2", "clo": "1", "clo_b": "1", "opt": "-1!", "join": "1", "nlist": "1,2", "inh": "x y", "nomemo": "x", "kwparams": "1", "kwparams_b": "1", "eol": "a\nb", "choice_b": "0x1f", "lrec_b": "a+b", "typed_tok": "begin 42", "kw_c": "IF", "manypat": "x71y", "cn_a": "7", "cn_b": "x", "cn_c": "x", "cn_d": "7 ab", "nums": "1", "nums_b": "1", "tok_a": "end if", "tok_b": "end  if", "pat_a": "12 34", "pat_b": "12  34", "ref": "12 ab", "choice": "a", "typed": "1", "typed_b": "1", "typed_c": "1 a", "typed_d": "ab", "params": "1", "kw": "x", "kw_b": "x",
+GOOD_INPUT = {"wide": "undo", "wide_b": "add 1", "clo_n": "1", "opt_n": "let a = 1", "bt": "1-2", "bt_b": "a-b", "cmt_a": "1 (* c *) 2", "cmt_b": "1 {c} 2", "cmt_c": "1 2", "clo": "1", "clo_b": "1", "opt": "-1!", "join": "1", "nlist": "1,2", "inh": "x y", "nomemo": "x", "kwparams": "1", "kwparams_b": "1", "eol": "a\nb", "choice_b": "0x1f", "lrec_b": "a+b", "typed_tok": "begin 42", "kw_c": "IF", "manypat": "x71y", "cn_a": "7", "cn_b": "x", "cn_c": "x", "cn_d": "7 ab", "nums": "1", "nums_b": "1", "tok_a": "end if", "tok_b": "end  if", "pat_a": "12 34", "pat_b": "12  34", "ref": "12 ab", "choice": "a", "typed": "1", "typed_b": "1", "typed_c": "1 a", "typed_d": "ab", "params": "1", "kw": "x", "kw_b": "x",
               "icase": "x", "ws": "ab cd", "const": "a", "named": "1", "over": "(1)", "lrec": "1", "cut": "x y", "two": "ab"}
 
 
@@ -1441,7 +1446,7 @@ def gen_paths_history(rng, handles):
     on it (first sets, lookahead lists, expected-token messages, rule infos) must not change what another one returns."""
     g = rng.choice([x for x in GRAMMARS if x not in ("bad", "manypat")])
     if rng.random() < 0.5:
-        g = rng.choice(["clo_n", "opt_n", "clo", "opt", "join", "nlist", "choice", "choice_b", "cut", "lrec", "lrec_b", "bt", "kw", "typed_c", "over", "inh"])
+        g = rng.choice(["wide", "wide_b", "clo_n", "opt_n", "clo", "opt", "join", "nlist", "choice", "choice_b", "cut", "lrec", "lrec_b", "bt", "kw", "typed_c", "over", "inh"])
     name = rng.choice([None, None, None, "A", "P"])
     settings = dict(rng.choice([{}, {}, {}, {"parseinfo": True}, {"nameguard": False}, {"ignorecase": True}]))
     texts = list(INPUTS[g])
